@@ -168,6 +168,23 @@ def run_pipeline(tier, replay_behaviours=None):
         stats["drift"] += len(res["drift"])
         for dr in res["drift"][:2]:
             stats["drift_samples"].append(dict(line=dr[1], behaviour=dr[2], family=allb[dr[2]]["family"], what=dr[3]))
+    if replay_behaviours is None:
+        # real-scale cases (replay window, counter limit, concurrent Send on Session and Channel)
+        tr = os.path.join(d, "scale.ndjson")
+        core.run([binp, "-scale", "-out", tr], timeout=600)
+        sres = core.validate_trace("SessionScaleTrace", "SessionScaleTrace.cfg", tr, nshards=1)
+        lines = open(tr).readlines()
+        stats["real_scale"] = [json.loads(l) for l in lines]
+        stats["events"] += sres["events"]
+        for v in sres["viol"]:
+            ev = json.loads(lines[v[1] - 1])
+            for op in v[3]:
+                pid = classify(op)
+                if pid is None:
+                    stats["drift"] += 1
+                    continue
+                violations.append((pid, "%s:%s:realscale/%s" % (pid, op, ev["case"]),
+                                   "%s false in real-scale case %s: %s" % (op, ev["case"], json.dumps(ev)), dict(scale_case=ev, operator=op)))
     for f in mcf:
         f.result()
     if ex:
@@ -236,6 +253,8 @@ def report(pid, tier, stats, mine, t0, extra=None):
         model_checking=stats["mc"], behaviours=stats["behaviours"], drift_steps=stats["drift"], exhaustive=False)
     if extra:
         coverage.update(extra)
+    if stats.get("real_scale"):
+        coverage["real_scale"] = stats["real_scale"]
     core.write_evidence(pid, tier, "model_checking", coverage,
                         ["Noise NN / ChaCha20-Poly1305 / Ed25519 / BLAKE2b are sound (symbolic model)",
                          "honest sessions sign with their own key (ground truth of honest messages is derived from real events)",
